@@ -15,7 +15,8 @@ model: coq
 
 harness:
 	python3 -c "import sys; sys.path.insert(0,'tools'); import vlib; \
-r=[vlib.harness_build(profile=p, hooks=True) for p in ('debug','release')]; \
+cfgs=[('debug',True,None,''),('release',True,None,''),('release',False,None,''),('release',False,['alloc'],''),('release',False,[],''),('release',True,None,'-Ctarget-feature=+avx2'),('release',False,[],'-Ctarget-feature=+avx2')]; \
+r=[vlib.harness_build(profile=p, hooks=h, features=f, extra_rustflags=x) for (p,h,f,x) in cfgs]; \
 [print(x[1][-2000:]) for x in r]; sys.exit(0 if all(x[0] for x in r) else 1)"
 
 clean:
